@@ -160,10 +160,39 @@ def run_case(asm, acc, case):
         core.add_sample(acc, {'program': P.render(items)[:12], 'chunk_sizes_uncompressed': sizes.get(False), 'chunk_sizes_compressed': sizes.get(True)})
 
 
+def include_case(asm, acc, seed, idx):
+    """items spread over included files (a file may be included twice): the output is the concatenation in source order, i.e. what
+    the same lines give when written in one file"""
+    import os
+    import shutil
+    import tempfile
+    from . import c14
+    rng = random.Random('c09-inc-%d-%d' % (seed, idx))
+    root = tempfile.mkdtemp(prefix='bbv-c09-')
+    try:
+        t = c14.gen_tree(rng, root)
+        c14.write_tree(t, root)
+        for compress in (False, True):
+            ref = monitors.observe(asm, '\n'.join(t.flat) + '\n', compress, tap=False)
+            o = monitors.observe(asm, t.main, compress, include_dirs=list(t.incdirs), tap=False)
+            acc['n'] += 1
+            acc['ctr']['include_layouts'] += 1
+            if t.double:
+                acc['ntkeys'].add(core.ckey('inc', seed, idx, compress))
+            if ref.ok and (not o.ok or o.out != ref.out):
+                core.add_viol(acc, 'program spread over %d included files (repeated include: %s, compress=%s) gives %s, the same lines in one file give %d bytes' % (
+                    len(t.files), t.double, compress, ('%d bytes' % len(o.out)) if o.ok else o.exc['msg'], len(ref.out)), {'kind': 'inc', 'seed': seed, 'idx': idx}, {})
+    finally:
+        shutil.rmtree(root, ignore_errors=True)
+
+
 def run_shard(sh, deadline):
     asm = core.load_asm()
     acc = core.new_acc()
     for i, case in enumerate(sh['cases']):
+        if case['kind'] == 'inc':
+            include_case(asm, acc, case['seed'], case['idx'])
+            continue
         if i == 0:
             case = dict(case, sample=True)
         run_case(asm, acc, case)
@@ -183,6 +212,7 @@ def plan(tier, seed):
                 cases.append({'kind': 'sweep', 'N': N, 'shift': r, 'seed': seed, 'mode': mode})
     nrand = 2000 if tier == 'quick' else 100000
     cases += [{'kind': 'rand', 'idx': i, 'seed': seed} for i in range(nrand)]
+    cases += [{'kind': 'inc', 'idx': i, 'seed': seed} for i in range(120 if tier == 'quick' else 3000)]
     nsh = 64 if tier == 'quick' else 512
     shards = [{'cases': cases[i::nsh]} for i in range(nsh)]
     return {'shards': shards, 'budget_s': 240 if tier == 'quick' else 3000}
@@ -210,5 +240,8 @@ def replay(case):
     asm = core.load_asm()
     acc = core.new_acc()
     c = {k: v for k, v in case.items() if k != 'compress'}
-    run_case(asm, acc, c)
+    if c['kind'] == 'inc':
+        include_case(asm, acc, c['seed'], c['idx'])
+    else:
+        run_case(asm, acc, c)
     return acc
